@@ -1,5 +1,405 @@
 package main
 
-type FSModel struct{}
+// POSIX-style file-system model (DESIGN §2.5) and io helpers.
+//
+// directory = name -> inode; inode = byte vector (+ link count); handle = (inode, offset).
+// os.Create on an existing name truncates the SAME inode (O_TRUNC), so a reader that holds a
+// handle observes the truncation; os.Remove unlinks the name, open handles keep the inode.
 
-func addIO(m map[string]Intrinsic) {}
+import (
+	"go/types"
+	"path/filepath"
+	"sort"
+	"strings"
+
+	"golang.org/x/tools/go/ssa"
+)
+
+type inode struct {
+	data []*Term
+	id   int
+}
+
+type fhandle struct {
+	ino      *inode
+	off      int
+	closed   bool
+	name     string
+	writable bool
+}
+
+type FSModel struct {
+	files   map[string]*inode
+	dirs    map[string]bool
+	handles map[*Object]*fhandle
+	faults  int // remaining injected faults
+	nextIno int
+	ops     []string
+}
+
+func (vm *VM) fs() *FSModel {
+	if vm.P.fs == nil {
+		vm.P.fs = &FSModel{files: map[string]*inode{}, dirs: map[string]bool{}, handles: map[*Object]*fhandle{}}
+	}
+	return vm.P.fs
+}
+
+func (vm *VM) fsFault(what string) bool {
+	f := vm.fs()
+	vm.lockEventLog("io", nil, true)
+	vm.schedPoint("fs")
+	if f.faults <= 0 {
+		return false
+	}
+	if vm.chooseLogged(2) == 1 {
+		f.faults--
+		f.ops = append(f.ops, "FAULT "+what)
+		return true
+	}
+	return false
+}
+
+func (vm *VM) pathErr(op, name string, sentinel string) Value {
+	var wrapped []Value
+	if sentinel != "" {
+		wrapped = []Value{vm.sentinel(sentinel)}
+	}
+	return vm.newError(mkStr(op+" "+name+": "+sentinel), wrapped)
+}
+
+func (vm *VM) fileType() types.Type { return vm.typeByName("os", "File") }
+
+func (vm *VM) newFile(h *fhandle) PtrV {
+	p := vm.newStruct(vm.fileType(), "os.File("+h.name+")")
+	vm.fs().handles[p.Obj] = h
+	return p
+}
+
+func (vm *VM) handleOf(v Value) *fhandle {
+	p, ok := v.(PtrV)
+	if !ok || p.Obj == nil {
+		return nil
+	}
+	return vm.fs().handles[p.Obj]
+}
+
+func cleanName(vm *VM, v Value) string {
+	return filepath.Clean(constStr(vm, v, "file name"))
+}
+
+const errNotExist = "io/fs.ErrNotExist"
+
+func addIO(m map[string]Intrinsic) {
+	m["path/filepath.Join"] = func(vm *VM, fn *ssa.Function, args []Value) Value {
+		var parts []string
+		for _, e := range vm.sliceElems(args[0].(SliceV)) {
+			parts = append(parts, constStr(vm, e, "filepath.Join element"))
+		}
+		return mkStr(filepath.Join(parts...))
+	}
+	m["path/filepath.Dir"] = func(vm *VM, fn *ssa.Function, args []Value) Value {
+		return mkStr(filepath.Dir(constStr(vm, args[0], "filepath.Dir")))
+	}
+	m["path/filepath.Clean"] = func(vm *VM, fn *ssa.Function, args []Value) Value {
+		return mkStr(filepath.Clean(constStr(vm, args[0], "filepath.Clean")))
+	}
+	m["os.MkdirAll"] = func(vm *VM, fn *ssa.Function, args []Value) Value {
+		vm.fs().dirs[cleanName(vm, args[0])] = true
+		return IfaceV{}
+	}
+	m["os.RemoveAll"] = func(vm *VM, fn *ssa.Function, args []Value) Value {
+		f := vm.fs()
+		d := cleanName(vm, args[0])
+		for name := range f.files {
+			if name == d || strings.HasPrefix(name, d+"/") {
+				delete(f.files, name)
+			}
+		}
+		for name := range f.dirs {
+			if name == d || strings.HasPrefix(name, d+"/") {
+				delete(f.dirs, name)
+			}
+		}
+		return IfaceV{}
+	}
+	m["os.Create"] = func(vm *VM, fn *ssa.Function, args []Value) Value {
+		f := vm.fs()
+		name := cleanName(vm, args[0])
+		if vm.fsFault("create " + name) {
+			return TupleV{PtrV{}, vm.pathErr("open", name, "io error")}
+		}
+		ino, ok := f.files[name]
+		if ok {
+			ino.data = nil // O_TRUNC: same inode
+		} else {
+			f.nextIno++
+			ino = &inode{id: f.nextIno}
+			f.files[name] = ino
+		}
+		f.ops = append(f.ops, "create "+name)
+		return TupleV{vm.newFile(&fhandle{ino: ino, name: name, writable: true}), IfaceV{}}
+	}
+	m["os.Open"] = func(vm *VM, fn *ssa.Function, args []Value) Value {
+		f := vm.fs()
+		name := cleanName(vm, args[0])
+		ino, ok := f.files[name]
+		if !ok {
+			return TupleV{PtrV{}, vm.pathErr("open", name, errNotExist)}
+		}
+		if vm.fsFault("open " + name) {
+			return TupleV{PtrV{}, vm.pathErr("open", name, "io error")}
+		}
+		return TupleV{vm.newFile(&fhandle{ino: ino, name: name}), IfaceV{}}
+	}
+	m["os.Remove"] = func(vm *VM, fn *ssa.Function, args []Value) Value {
+		f := vm.fs()
+		name := cleanName(vm, args[0])
+		if _, ok := f.files[name]; !ok {
+			return vm.pathErr("remove", name, errNotExist)
+		}
+		if vm.fsFault("remove " + name) {
+			return vm.pathErr("remove", name, "io error")
+		}
+		delete(f.files, name)
+		f.ops = append(f.ops, "remove "+name)
+		return IfaceV{}
+	}
+	statInfo := func(vm *VM, name string, size int) Value {
+		return IfaceV{Dyn: vm.synType("fileinfo"), V: &StructV{F: []Value{mkStr(name), intV(size)}}}
+	}
+	m["os.Stat"] = func(vm *VM, fn *ssa.Function, args []Value) Value {
+		f := vm.fs()
+		name := cleanName(vm, args[0])
+		if f.dirs[name] {
+			return TupleV{statInfo(vm, name, 0), IfaceV{}}
+		}
+		ino, ok := f.files[name]
+		if !ok {
+			return TupleV{IfaceV{}, vm.pathErr("stat", name, errNotExist)}
+		}
+		if vm.fsFault("stat " + name) {
+			return TupleV{IfaceV{}, vm.pathErr("stat", name, "io error")}
+		}
+		return TupleV{statInfo(vm, name, len(ino.data)), IfaceV{}}
+	}
+	m["syn:fileinfo.Size"] = func(vm *VM, fn *ssa.Function, args []Value) Value { return args[0].(*StructV).F[1] }
+	m["syn:fileinfo.Name"] = func(vm *VM, fn *ssa.Function, args []Value) Value { return args[0].(*StructV).F[0] }
+	m["syn:fileinfo.IsDir"] = func(vm *VM, fn *ssa.Function, args []Value) Value { return tFalse }
+	m["(*os.File).Stat"] = func(vm *VM, fn *ssa.Function, args []Value) Value {
+		h := vm.handleOf(args[0])
+		if h == nil || h.closed {
+			return TupleV{IfaceV{}, vm.pathErr("stat", "?", "file already closed")}
+		}
+		return TupleV{statInfo(vm, h.name, len(h.ino.data)), IfaceV{}}
+	}
+	m["(*os.File).Name"] = func(vm *VM, fn *ssa.Function, args []Value) Value {
+		return mkStr(vm.handleOf(args[0]).name)
+	}
+	m["(*os.File).Close"] = func(vm *VM, fn *ssa.Function, args []Value) Value {
+		h := vm.handleOf(args[0])
+		if h == nil {
+			return vm.sentinel("os.ErrInvalid")
+		}
+		if h.closed {
+			return vm.pathErr("close", h.name, "file already closed")
+		}
+		h.closed = true
+		return IfaceV{}
+	}
+	m["(*os.File).Write"] = func(vm *VM, fn *ssa.Function, args []Value) Value {
+		h := vm.handleOf(args[0])
+		b := sliceTerms(vm, args[1])
+		if h == nil || h.closed {
+			return TupleV{intV(0), vm.pathErr("write", "?", "file already closed")}
+		}
+		n := len(b)
+		var err Value = IfaceV{}
+		if n > 0 && vm.fsFault("write "+h.name) {
+			n = vm.chooseLogged(len(b)) // bytes that made it before the failure
+			err = vm.pathErr("write", h.name, "no space left on device")
+		}
+		for len(h.ino.data) < h.off {
+			h.ino.data = append(h.ino.data, mkBV(8, 0))
+		}
+		nd := append([]*Term(nil), h.ino.data[:h.off]...)
+		nd = append(nd, b[:n]...)
+		if h.off+n < len(h.ino.data) {
+			nd = append(nd, h.ino.data[h.off+n:]...)
+		}
+		h.ino.data = nd
+		h.off += n
+		return TupleV{intV(n), err}
+	}
+	m["(*os.File).Read"] = func(vm *VM, fn *ssa.Function, args []Value) Value {
+		h := vm.handleOf(args[0])
+		dst := args[1].(SliceV)
+		if h == nil || h.closed {
+			return TupleV{intV(0), vm.pathErr("read", "?", "file already closed")}
+		}
+		vm.schedPoint("fs-read")
+		if dst.Len == 0 {
+			return TupleV{intV(0), IfaceV{}}
+		}
+		if h.off >= len(h.ino.data) {
+			return TupleV{intV(0), vm.globalIface("io", "EOF")}
+		}
+		n := len(h.ino.data) - h.off
+		if n > dst.Len {
+			n = dst.Len
+		}
+		vals := make([]Value, n)
+		for i := 0; i < n; i++ {
+			vals[i] = h.ino.data[h.off+i]
+		}
+		vm.writeSlice(dst, 0, vals)
+		h.off += n
+		return TupleV{intV(n), IfaceV{}}
+	}
+	m["(*os.File).ReadAt"] = func(vm *VM, fn *ssa.Function, args []Value) Value {
+		h := vm.handleOf(args[0])
+		dst := args[1].(SliceV)
+		off := constInt(vm, args[2], "ReadAt offset")
+		if h == nil || h.closed {
+			return TupleV{intV(0), vm.pathErr("read", "?", "file already closed")}
+		}
+		vm.schedPoint("fs-read")
+		if off < 0 {
+			return TupleV{intV(0), vm.newErrorStr("negative offset")}
+		}
+		n := len(h.ino.data) - off
+		if n < 0 {
+			n = 0
+		}
+		if n > dst.Len {
+			n = dst.Len
+		}
+		vals := make([]Value, n)
+		for i := 0; i < n; i++ {
+			vals[i] = h.ino.data[off+i]
+		}
+		vm.writeSlice(dst, 0, vals)
+		if n < dst.Len {
+			return TupleV{intV(n), vm.globalIface("io", "EOF")}
+		}
+		return TupleV{intV(n), IfaceV{}}
+	}
+	m["(*os.File).Seek"] = func(vm *VM, fn *ssa.Function, args []Value) Value {
+		h := vm.handleOf(args[0])
+		off := constInt(vm, args[1], "Seek offset")
+		whence := constInt(vm, args[2], "Seek whence")
+		if h == nil || h.closed {
+			return TupleV{intV(0), vm.pathErr("seek", "?", "file already closed")}
+		}
+		if vm.fsFault("seek " + h.name) {
+			return TupleV{intV(0), vm.pathErr("seek", h.name, "io error")}
+		}
+		switch whence {
+		case 0:
+			h.off = off
+		case 1:
+			h.off += off
+		case 2:
+			h.off = len(h.ino.data) + off
+		}
+		if h.off < 0 {
+			h.off = 0
+			return TupleV{intV(0), vm.newErrorStr("seek: negative position")}
+		}
+		return TupleV{intV(h.off), IfaceV{}}
+	}
+	// io.Copy: generic chunked loop over the interface methods (the ReaderFrom/WriterTo
+	// shortcuts of the real implementation move the same bytes).
+	m["io.Copy"] = func(vm *VM, fn *ssa.Function, args []Value) Value {
+		dst, src := args[0].(IfaceV), args[1].(IfaceV)
+		chunk := 8
+		if c, ok := vm.cfg.Params["copychunk"]; ok {
+			chunk = c
+		}
+		total := 0
+		for iter := 0; ; iter++ {
+			if iter > vm.cfg.Unwind {
+				panic(&engineError{msg: "io.Copy exceeded the unwinding bound"})
+			}
+			buf := vm.makeSlice(types.Typ[types.Uint8], chunk, chunk)
+			r := vm.invokeByName(src, "Read", buf).(TupleV)
+			n := constInt(vm, r[0], "Read count")
+			if n > 0 {
+				w := vm.invokeByName(dst, "Write", SliceV{Arr: buf.Arr, Off: 0, Len: n, Cap: chunk}).(TupleV)
+				wn := constInt(vm, w[0], "Write count")
+				total += wn
+				if werr := w[1].(IfaceV); werr.Dyn != nil {
+					return TupleV{intV(total), werr}
+				}
+				if wn < n {
+					return TupleV{intV(total), vm.globalIface("io", "ErrShortWrite")}
+				}
+			}
+			if rerr := r[1].(IfaceV); rerr.Dyn != nil {
+				if vm.errorsIs(rerr, vm.globalIface("io", "EOF").(IfaceV)) {
+					return TupleV{intV(total), IfaceV{}}
+				}
+				return TupleV{intV(total), rerr}
+			}
+			if n == 0 {
+				// a reader returning (0, nil) forever would not terminate; count it against the bound
+				continue
+			}
+		}
+	}
+	// harness access to the file-system model
+	m["vocab.vFSFaults"] = func(vm *VM, fn *ssa.Function, args []Value) Value {
+		vm.fs().faults = constInt(vm, args[0], "vFSFaults")
+		return nil
+	}
+	m["vocab.vFSFaulted"] = func(vm *VM, fn *ssa.Function, args []Value) Value {
+		for _, o := range vm.fs().ops {
+			if strings.HasPrefix(o, "FAULT") {
+				return tTrue
+			}
+		}
+		return tFalse
+	}
+	m["vocab.vFSPutFile"] = func(vm *VM, fn *ssa.Function, args []Value) Value {
+		f := vm.fs()
+		name := cleanName(vm, args[0])
+		f.nextIno++
+		f.files[name] = &inode{id: f.nextIno, data: args[1].(StrV).Bytes()}
+		return nil
+	}
+	m["vocab.vFSExists"] = func(vm *VM, fn *ssa.Function, args []Value) Value {
+		_, ok := vm.fs().files[cleanName(vm, args[0])]
+		return mkBool(ok)
+	}
+	m["vocab.vFSContent"] = func(vm *VM, fn *ssa.Function, args []Value) Value {
+		ino, ok := vm.fs().files[cleanName(vm, args[0])]
+		if !ok {
+			return StrV{}
+		}
+		return strFromBytes(ino.data)
+	}
+	m["vocab.vFSCount"] = func(vm *VM, fn *ssa.Function, args []Value) Value {
+		d := cleanName(vm, args[0])
+		n := 0
+		for name := range vm.fs().files {
+			if strings.HasPrefix(name, d+"/") {
+				n++
+			}
+		}
+		return intV(n)
+	}
+	m["vocab.vFSBytes"] = func(vm *VM, fn *ssa.Function, args []Value) Value {
+		d := cleanName(vm, args[0])
+		n := 0
+		for name, ino := range vm.fs().files {
+			if strings.HasPrefix(name, d+"/") {
+				n += len(ino.data)
+			}
+		}
+		return intV(n)
+	}
+	m["vocab.vFSOps"] = func(vm *VM, fn *ssa.Function, args []Value) Value {
+		ops := append([]string(nil), vm.fs().ops...)
+		sort.Strings(ops)
+		return mkStr(strings.Join(vm.fs().ops, ";"))
+	}
+}
